@@ -923,3 +923,159 @@ def ref_contains(d, m):
         return all(lo <= v <= hi for v, lo, hi in zip(pt, d['min'],
                                                        d['max']))
     return None
+
+
+# --------------------------------------------------------------------------
+# near-value chains: every numeric attribute that takes part in equality
+
+def _up(v, n=1):
+    """n-th floating point neighbour of v (away from zero for v != 0)."""
+    v = float(v)
+    for _ in range(n):
+        v = float(np.nextafter(v, np.inf if v >= 0 else -np.inf))
+    return v
+
+
+def near_value_chains(d, k=17):
+    """Chains of descriptors that differ from ``d`` (and from each other)
+    only by a tiny change of one numeric attribute: list of
+    (attribute, [desc_1, desc_2, ...]); desc_1 is a near-twin of ``d``,
+    desc_(i+1) of desc_i.  ``==`` is exact for all these classes (only
+    ``approx_equals`` is documented as approximate), so every link is
+    expected to be UNEQUAL."""
+    out = []
+    delta = 2.0 ** -int(k)
+    kind = d['k']
+
+    def chain(attr, make, values):
+        out.append((attr, [make(v) for v in values]))
+
+    if kind == 'W':
+        if d['type'] == 'const':
+            v = d['value']
+            chain('weighting-const', lambda c: dict(d, value=c),
+                  [v * (1 + delta), v * (1 + 2 * delta)])
+            chain('weighting-const-tiny', lambda c: dict(d, value=c),
+                  [1e-9, 3e-9, 9e-9])
+        if d['type'] in ('array', 'matrix'):
+            def mk(f):
+                m = _copy(d)
+                m['arr']['data'][0] *= f
+                m['arr']['id'] = 90 + int(f > 1 + 1.5 * delta)
+                return m
+            chain('array-entry', mk, [1 + delta, 1 + 2 * delta])
+        if d['type'] != 'custom' and d['exponent'] != INF:
+            p = d['exponent']
+            chain('exponent', lambda q: dict(d, exponent=q),
+                  [p + 1e-9, p + 2e-9])
+            chain('exponent-ulp', lambda q: dict(d, exponent=q),
+                  [_up(p), _up(p, 2)])
+    elif kind == 'Intv' and d['min']:
+        def mk_max(v):
+            m = _copy(d)
+            m['max'][-1] = v
+            return m
+
+        def mk_min(v):
+            m = _copy(d)
+            m['min'][0] = v
+            return m
+        hi, lo = d['max'][-1], d['min'][0]
+        chain('interval-ulp', mk_max, [_up(hi) if hi != 0 else 5e-324,
+                                       _up(hi, 2) if hi != 0 else 1e-323])
+        chain('interval-rel', mk_max, [hi + max(abs(hi), 1.0) * 1e-9,
+                                       hi + max(abs(hi), 1.0) * 2e-9])
+        chain('interval-min', mk_min, [lo - max(abs(lo), 1.0) * 1e-9,
+                                       lo - max(abs(lo), 1.0) * 2e-9])
+    elif kind == 'Grid' and d['coords']:
+        def mk(v):
+            m = _copy(d)
+            m['coords'][-1][-1] = v
+            return m
+        c = d['coords'][-1][-1]
+        chain('grid-ulp', mk, [_up(c) if c > 0 else c + 1e-15 * (abs(c) + 1),
+                               _up(c, 2) if c > 0 else
+                               c + 2e-15 * (abs(c) + 1)])
+        chain('grid-rel', mk, [c + max(abs(c), 1.0) * 1e-9,
+                               c + max(abs(c), 1.0) * 2e-9])
+    elif kind in ('Part', 'UPart') and d['max']:
+        def mk(v):
+            m = _copy(d)
+            m['max'][-1] = v
+            return m
+        hi = d['max'][-1]
+        attr = 'partition-limit' if kind == 'Part' else 'cell-sides'
+        chain(attr, mk, [hi + max(abs(hi), 1.0) * 1e-9,
+                         hi + max(abs(hi), 1.0) * 2e-9])
+        chain(attr + '-ulp', mk, [hi + max(abs(hi), 1.0) * 2.0 ** -50,
+                                  hi + max(abs(hi), 1.0) * 2.0 ** -49])
+        if kind == 'Part' and len(d['coords'][0]) >= 2:
+            def mkc(f):
+                m = _copy(d)
+                c = m['coords'][0]
+                c[-1] = c[-1] - (c[-1] - c[-2]) * f
+                return m
+            chain('partition-coordinate', mkc, [1e-9, 2e-9])
+    elif kind == 'Space':
+        for attr, sds in _space_near_values(d['sd'], delta):
+            out.append((attr, [{'k': 'Space', 'sd': sd} for sd in sds]))
+    return out
+
+
+def _space_near_values(sd, delta):
+    out = []
+    w = sd.get('weighting')
+    numeric = sd['kind'] == 'pspace' or \
+        np.dtype(sd['dtype']).kind in 'fc'
+    if not numeric:
+        return out
+    if w is None or w['type'] == 'const':
+        v = 1.0 if w is None else w['value']
+        if not (w is None and sd['kind'] in ('discr', 'discr_coords')):
+            out.append(('weighting-const', [
+                dict(sd, weighting={'type': 'const', 'value': v * f})
+                for f in (1 + delta, 1 + 2 * delta)]))
+        out.append(('weighting-const-tiny', [
+            dict(sd, weighting={'type': 'const', 'value': c})
+            for c in (1e-9, 3e-9, 9e-9)]))
+    elif w['type'] == 'array':
+        def mk(f):
+            m = _copy(sd)
+            data = m['weighting']['data']
+            while isinstance(data[0], list):
+                data = data[0]
+            data[0] *= f
+            m['weighting']['id'] = 92 + int(f > 1 + 1.5 * delta)
+            return m
+        if w['data'] and build.space_size(sd) if sd['kind'] != 'pspace' \
+                else w['data']:
+            out.append(('array-entry', [mk(1 + delta), mk(1 + 2 * delta)]))
+    if not (w and w['type'] == 'custom') and \
+            sd.get('exponent', 2.0) != INF:
+        p = sd.get('exponent', 2.0)
+        out.append(('exponent', [dict(sd, exponent=q)
+                                 for q in (p + 1e-9, p + 2e-9)]))
+    if sd['kind'] == 'discr':
+        def mkl(v):
+            m = _copy(sd)
+            m['max'][-1] = v
+            return m
+        hi = sd['max'][-1]
+        out.append(('cell-sides', [mkl(hi + max(abs(hi), 1.0) * e)
+                                   for e in (1e-9, 2e-9)]))
+        out.append(('cell-sides-ulp', [mkl(hi + max(abs(hi), 1.0) * e)
+                                       for e in (2.0 ** -50, 2.0 ** -49)]))
+    if sd['kind'] == 'pspace':
+        parts = build.space_parts(sd)
+        if parts and not (sd.get('power') is not None and len(parts) > 1):
+            for attr, subs in _space_near_values(parts[-1], delta)[:3]:
+                chain = []
+                for sub in subs:
+                    m = _copy(sd)
+                    if sd.get('power') is not None:
+                        m['base'] = sub
+                    else:
+                        m['parts'][-1] = sub
+                    chain.append(m)
+                out.append(('component-' + attr, chain))
+    return out
